@@ -1134,7 +1134,7 @@ func (g *gen) runGenerated(c *Case) {
 var largeSpan = 9000
 
 func main() {
-	level := flag.Int("level", 1, "1 = service scripts, 2 = HTTP handlers with retry")
+	level := flag.Int("level", 1, "1 = service scripts, 2 = HTTP handlers with retry, 3 = soak, 4 = parser cells (scripted decoder behind the real batching handlers)")
 	flag.IntVar(&largeSpan, "largespan", 9000, "rows of a large request: 2000 .. 2000+largespan")
 	f := hx.ParseFlags()
 	config.Cloki = clconfig.New(clconfig.CLOKI_WRITER, nil, "", "")
@@ -1153,6 +1153,29 @@ func main() {
 		initLevel2()
 		for i := 0; i < f.N; i++ {
 			out.Put(runSoak(i, f.Seed+int64(i), 16, 6))
+		}
+		return
+	}
+	if *level == 4 {
+		initLevel2()
+		if f.Cases != "" {
+			hx.ReadLines(f.Cases, func(b []byte) {
+				var c CellCase
+				if err := json.Unmarshal(b, &c); err != nil {
+					panic(err)
+				}
+				watch(func(msg string) { c.Err = msg; out.Put(c) })
+				runCells(&c)
+				out.Put(c)
+			})
+			return
+		}
+		r := hx.Rand(f.Seed)
+		for i := 0; i < f.N; i++ {
+			c := genCells(r, i)
+			watch(func(msg string) { c.Err = msg; out.Put(c) })
+			runCells(c)
+			out.Put(c)
 		}
 		return
 	}
